@@ -151,6 +151,41 @@ def requestToDnsMsgC (unpack : Bytes → Option Msg) (method : String) (dnsVals 
     (chunks : List Bytes) (ra ca : Option Bytes) : Option Msg :=
   ((unpackInputC method dnsVals chunks).bind unpack).map (setClientSubnet ra ca)
 
+/-! ### the module's handler: condition, IsSecure, DnsClient.Fetch with exchangeWithRetry -/
+
+inductive HRes
+  | goon
+  | resp (status : Nat)
+deriving DecidableEq, Repr
+
+/-- `exchangeWithRetry`: `for retry := 0; retry < retryMax+1; retry++ { reply, err = Exchange(msg); if err == nil { return } }`.
+    `script` = how the upstream treats the successive queries (`'r'` = a proper reply; anything else = an error: garbage,
+    wrong id; past the end = proper replies).  Result: (queries sent, success). -/
+def exchangeWithRetry : Nat → List Char → Nat × Bool
+  | 0, _ => (0, false)
+  | n + 1, sc =>
+    match sc with
+    | [] => (1, true)
+    | c :: rest =>
+      if c = 'r' then (1, true)
+      else
+        let r := exchangeWithRetry n rest
+        (r.1 + 1, r.2)
+
+/-- `dohHandler`: not matched -> go on; not over TLS -> 403; `Fetch` error (conversion failed, message cannot be packed,
+    no usable reply in retryMax+1 exchanges) -> 500; else the reply converted -> 200.  Second component: number of
+    queries that reached the upstream. -/
+def dohHandler (matched secure : Bool) (conv : Option Msg) (script : List Char) (retryMax : Nat) : HRes × Nat :=
+  if !matched then (.goon, 0)
+  else if !secure then (.resp 403, 0)
+  else match conv with
+    | none => (.resp 500, 0)
+    | some m =>
+      if !m.packable then (.resp 500, 0)
+      else
+        let r := exchangeWithRetry (retryMax + 1) script
+        (.resp (if r.2 then 200 else 500), r.1)
+
 /-- one DoH request, as values -/
 structure DohReq where
   method : String
